@@ -104,7 +104,7 @@ def classify(s, start, open_paren):
         r = rest.lstrip()
         if r.startswith("?"):
             return "propagate"
-        m = re.match(r"\.\s*(map_err|map)\s*\(", r)
+        m = re.match(r"\.\s*(map_err|map|and_then|or_else)\s*\(", r)
         if m:
             k = r.index("(", m.start())
             rest = r[match_paren(r, k):]
@@ -147,7 +147,40 @@ def classify(s, start, open_paren):
         return "swallow"
     if r.startswith(";"):
         return "swallow"
+    # scrutinee of a `match`: every arm that takes an `Err(..)` must evaluate to / return an `Err(..)`
+    if re.search(r"\bmatch\s*$", prefix) and r.startswith("{"):
+        block = r[:match_paren(r, 0)]
+        arms = list(re.finditer(r"\bErr\s*\(\s*[\w\s]*\)\s*(if\b[^=]*(==[^=]*)*)?=>", block))
+        if not arms:
+            return "unknown"
+        for am in arms:
+            rest = block[am.end():].lstrip()
+            if rest.startswith("{"):
+                arm = rest[:match_paren(rest, 0)]
+                tail = arm[:-1].rstrip()
+                ok = bool(re.search(r"\bErr\s*\((?:[^()]|\([^()]*\))*\)\s*$", tail)) or bool(re.search(r"\breturn\s+Err\s*\((?:[^()]|\([^()]*\))*\)\s*;?\s*$", tail))
+            else:
+                arm = rest[:_arm_end(rest)]
+                ok = bool(re.match(r"\s*(return\s+)?Err\s*\(", arm))
+            if not ok:
+                return "swallow"
+        return "propagate"
     return "unknown"
+
+
+def _arm_end(t):
+    """end of a match arm without braces: the `,` at depth 0 (or the closing brace of the match)"""
+    depth = 0
+    for j, c in enumerate(t):
+        if c in "([{":
+            depth += 1
+        elif c in ")]}":
+            if depth == 0:
+                return j
+            depth -= 1
+        elif c == "," and depth == 0:
+            return j
+    return len(t)
 
 
 def scan(repo):
@@ -191,7 +224,7 @@ def scan(repo):
     return rows
 
 
-SINKS = re.compile(r"^(f|fmt|out|formatter|self\.w|self\.0|self\.target\(\)|self|writer|w)$")
+SINKS = re.compile(r"^(f|fmt|out|formatter|self\.w|self\.0|self\.f|self\.target\(\)|self|writer|w)$")
 
 
 @item("C19_WRITE_SITES")
@@ -278,6 +311,21 @@ def _unhooked_bodies(repo):
     return rows, lean
 
 
+def _stmt_end(t):
+    """index of the `;` or unmatched closing bracket that ends the expression starting at t[0]"""
+    depth = 0
+    for j, c in enumerate(t):
+        if c in "([{":
+            depth += 1
+        elif c in ")]}":
+            if depth == 0:
+                return j
+            depth -= 1
+        elif c == ";" and depth == 0:
+            return j
+    return len(t)
+
+
 @item("C19_WRITEWRAPPER_METHODS")
 def _writewrapper_methods(repo):
     """the methods implemented in `impl fmt::Write for WriteWrapper<W>`: name -> does every path that
@@ -297,16 +345,41 @@ def _writewrapper_methods(repo):
         f0 = body.index("{", fm.end())
         fbody = body[f0:match_paren(body, f0)]
         sink_calls = len(re.findall(r"\bself\s*\.\s*w\s*\.\s*\w+\s*\(", fbody)) + len(re.findall(r"\bself\s*\.\s*w\b(?!\s*\.)", fbody))
-        # every sink call must be followed (in its expression) by a map_err whose closure assigns self.err
+        # every sink call must hand its error to `self.err`: a `map_err` whose closure assigns it, or the
+        # call is the scrutinee of a `match` / `if let Err(e)` all of whose `Err` arms assign it
         stores = 0
         for cm in re.finditer(r"\bself\s*\.\s*w\b", fbody):
             tail = fbody[cm.end():]
+            head = fbody[:cm.start()]
             mm = re.search(r"\.\s*map_err\s*\(", tail)
-            semi = tail.find(";")
-            if mm and (semi < 0 or mm.start() < semi or True):
+            semi = _stmt_end(tail)
+            if mm and mm.start() < semi:
                 k = tail.index("(", mm.start())
                 closure = tail[k:match_paren(tail, k)]
                 if re.search(r"\bself\s*\.\s*err\s*=\s*Some\s*\(", closure):
+                    stores += 1
+                    continue
+            if re.search(r"\bmatch\s*$", head):
+                b = tail.find("{")
+                block = tail[b:match_paren(tail, b)] if b >= 0 else ""
+                arms = list(re.finditer(r"\bErr\s*\(\s*(\w+)\s*\)\s*(if\b[^=]*(==[^=]*)*)?=>", block))
+                good = bool(arms)
+                for am in arms:
+                    rest = block[am.end():].lstrip()
+                    if rest.startswith("{"):
+                        arm = rest[:match_paren(rest, 0)]
+                    else:
+                        arm = rest[:rest.find(",")] if "," in rest else rest
+                    if not re.search(r"\bself\s*\.\s*err\s*=\s*Some\s*\(\s*%s\s*\)" % re.escape(am.group(1)), arm):
+                        good = False
+                if good:
+                    stores += 1
+                    continue
+            lm = re.search(r"\bif\s+let\s+Err\s*\(\s*(\w+)\s*\)\s*=\s*$", head)
+            if lm:
+                b = tail.find("{")
+                block = tail[b:match_paren(tail, b)] if b >= 0 else ""
+                if re.search(r"\bself\s*\.\s*err\s*=\s*Some\s*\(\s*%s\s*\)" % re.escape(lm.group(1)), block) and re.search(r"\bErr\s*\(\s*fmt::Error\s*\)", block):
                     stores += 1
         rows.append((fm.group(1), sink_calls == stores))
     if not rows:
@@ -435,8 +508,11 @@ def _boundary_sites(repo):
             fm = list(re.finditer(r"\bfn\s+%s\b" % re.escape(fn), s[:m.start()]))[-1]
             b0 = s.index("{", fm.end())
             body = s[b0:match_paren(s, b0)]
-            ok_arm = len(re.findall(r"\bOk\s*\(\s*\w+\s*\)\s*=>\s*\w+\s*\.\s*check\s*\(", body))
-            err_arm = len(re.findall(r"\bErr\s*\(\s*\w+\s*\)\s*=>\s*Err\s*\(\s*\w+\s*\.\s*take_err\s*\(", body))
+            # the arms of a `match` on the evaluation's result, or the combinator forms of the same
+            ok_arm = len(re.findall(r"\bOk\s*\(\s*\w+\s*\)\s*=>\s*\w+\s*\.\s*check\s*\(", body)) \
+                + len(re.findall(r"\.\s*and_then\s*\(\s*\|\s*\w+\s*\|\s*\w+\s*\.\s*check\s*\(\s*(?:\w+|\(\s*\))\s*\)\s*\)", body))
+            err_arm = len(re.findall(r"\bErr\s*\(\s*\w+\s*\)\s*=>\s*Err\s*\(\s*\w+\s*\.\s*take_err\s*\(", body)) \
+                + len(re.findall(r"\.\s*map_err\s*\(\s*\|\s*(\w+)\s*\|\s*\w+\s*\.\s*take_err\s*\(\s*\1\s*\)\s*\)", body))
             rows.append((rel, fn, len(re.findall(r"\.\s*check\s*\(", body)), len(re.findall(r"\.\s*take_err\s*\(", body)), ok_arm, err_arm))
     if not rows:
         raise KeyError("no WriteWrapper construction found")
@@ -468,4 +544,462 @@ def _writewrapper_sticky(repo):
     if not rows:
         raise KeyError("no methods in impl fmt::Write for WriteWrapper")
     lean = "def c19WriteWrapperSticky : List (String × Bool) := [" + ", ".join("(%s, %s)" % (lean_str(a), "true" if b else "false") for a, b in rows) + "]"
+    return rows, lean
+
+
+# ------------------------------------------------------------------------------------------------
+# C19_RESULT_FLOW: every use of a handle of the render output (`&mut Output`, `&mut fmt::Formatter`,
+# `&mut dyn fmt::Write`, builders made from a formatter, wrapper structs around one, `Output`s
+# created in place) in the crate outside the compiler: what is called with it and what happens to
+# the call's `Result`.  Classes:
+#   propagate   as for C19_WRITE_SITES; also: the value of a closure handed to a function whose own
+#               result propagates; a bound variable that is consumed by `ok!(v..)`/`ctx_ok!(v)`/`v?`/
+#               the block's value and is mentioned nowhere else except in the arguments of
+#               verification hooks; the scrutinee of the `match` of an entry point whose arms
+#               C19_BOUNDARY_SITES finds complete
+#   noresult    the callee returns no `Result` (`begin_capture`, `end_capture`, `alternate`, builder
+#               steps, a flag of a wrapper struct): for `Output` read off its impl, for std's
+#               `Formatter` a fixed list; a method that is in neither list is `unknown-method`
+#   inspected   the bound result is looked at (`is_err()`, `if let`, ..) before it is propagated
+#   swallow / panic / unknown.. as for C19_WRITE_SITES
+# (the write calls themselves are the rows of C19_WRITE_SITES.)
+# `MJ.C19.every_write_result_propagates` demands `propagate`/`noresult` of every row.
+HANDLE_TYPES = [
+    (r"&\s*mut\s+Output\b", "out"),
+    (r"&\s*mut\s+(?:std::)?fmt::Formatter\b", "fmt"),
+    (r"&\s*mut\s+(?:\(\s*)?dyn\s+(?:std::)?fmt::Write\b", "dynw"),
+]
+# methods of the handles that do not return a `fmt::Result`/`Result` (std's `Formatter`: known;
+# `Output`: read off its impl)
+FMT_NORESULT = {"alternate", "debug_map", "debug_list", "debug_struct", "debug_tuple", "debug_set", "width", "precision", "fill",
+                "sign_plus", "sign_minus", "entry", "entries", "field", "key", "value", "finish_non_exhaustive_"}
+FMT_RESULT = {"write_str", "write_char", "write_fmt", "pad", "pad_integral", "finish"}
+
+
+def fn_items(s):
+    """(name, sig_start, params_open, params_end, body_open, body_end) of every `fn` item with a body"""
+    out = []
+    for m in re.finditer(r"\bfn\s+(\w+)\s*", s):
+        k = m.end()
+        if k < len(s) and s[k] == "<":
+            depth = 0
+            while k < len(s):
+                if s[k] == "<":
+                    depth += 1
+                elif s[k] == ">" and s[k - 1] != "-":
+                    depth -= 1
+                    if depth == 0:
+                        k += 1
+                        break
+                k += 1
+            while k < len(s) and s[k].isspace():
+                k += 1
+        if k >= len(s) or s[k] != "(":
+            continue
+        p0 = k
+        p1 = match_paren(s, p0)
+        # up to the `{` of the body or the `;` of a declaration
+        k = p1
+        depth = 0
+        while k < len(s) and not (s[k] in "{;" and depth == 0):
+            if s[k] in "([":
+                depth += 1
+            elif s[k] in ")]":
+                depth -= 1
+            k += 1
+        if k >= len(s) or s[k] == ";":
+            continue
+        out.append((m.group(1), m.start(), p0, p1, k, match_paren(s, k)))
+    return out
+
+
+def output_methods(repo):
+    """name -> returns a Result?  for the inherent and trait methods of `Output`"""
+    raw = open(os.path.join(repo, "minijinja/src/output.rs"), encoding="utf-8").read()
+    s = blank_comments_and_strings(raw)
+    res = {}
+    for m in re.finditer(r"impl(?:\s*<[^>]*>)?\s+(?:fmt::Write\s+for\s+)?Output\s*<[^>]*>\s*\{", s):
+        b0 = s.index("{", m.end() - 1)
+        body = s[b0:match_paren(s, b0)]
+        for (name, st, p0, p1, k, end) in fn_items(body):
+            ret = body[p1:k]
+            res[name] = res.get(name, False) or bool(re.search(r"->\s*(fmt::Result|Result\s*<)", ret))
+    return res
+
+
+def scan_flow(repo, files):
+    outm = output_methods(repo)
+    rows = []
+    for rel in files:
+        path = os.path.join(repo, rel)
+        if not os.path.exists(path):
+            continue
+        raw = open(path, encoding="utf-8").read()
+        cut = raw.find("#[cfg(test)]")
+        if cut >= 0:
+            raw = raw[:cut]
+        s = blank_comments_and_strings(raw)
+        items = fn_items(s)
+        short = rel.replace("minijinja/src/", "")
+        counter = {}
+        for (name, st, p0, p1, b0, b1) in items:
+            params = s[p0:p1]
+            handles = {}
+            for (ty, kind) in HANDLE_TYPES:
+                for pm in re.finditer(r"(\w+)\s*:\s*" + ty, params):
+                    handles[pm.group(1)] = kind
+            body = s[b0:b1]
+            # blank nested fn items: they are scanned on their own
+            inner = [(a, f) for (_, a, _, _, e, f) in items if a > b0 and f <= b1]
+            bl = list(body)
+            for (a, f) in inner:
+                for i in range(a - b0, f - b0):
+                    if bl[i] != "\n":
+                        bl[i] = " "
+            body_own = "".join(bl)
+            # nested `struct X { .. }` items declare fields, they do not use the handle
+            for sm in re.finditer(r"\bstruct\s+\w+\s*(<[^>{]*>)?\s*\{", body_own):
+                e = match_paren(body_own, sm.end() - 1)
+                body_own = body_own[:sm.start()] + re.sub(r"[^\n]", " ", body_own[sm.start():e]) + body_own[e:]
+            # `self.f` / `self.0`-style handles of forwarding wrappers: a struct field of a handle type
+            # an `Output` created here and bound to a local
+            for lm in re.finditer(r"\blet\s+(?:mut\s+)?(\w+)\s*=\s*Output\s*::\s*(new|null)\s*\(", body_own):
+                handles[lm.group(1)] = "out"
+            # an `Output` created in place as the argument of a call: `f(.., &mut Output::new(..), ..)`
+            for cm in re.finditer(r"&\s*mut\s+Output\s*::\s*(new|null)\s*\(", body_own):
+                pos = b0 + cm.start()
+                enc = enclosing_open(s, pos)
+                key = (short, name)
+                counter[key] = counter.get(key, 0) + 1
+                site = "%s:%s#%d" % (short, name, counter[key])
+                if enc >= 0 and s[enc] == "(":
+                    cm2 = re.search(r"([\w:.]+)\s*$", s[max(0, enc - 60):enc])
+                    callee = cm2.group(1) if cm2 else "?"
+                    em = re.search(r"((?:[\w:]+|\([^()]*\))(?:\s*\.\s*\w+(?:\(\))?)*)\s*$", s[:enc])
+                    rows.append((site, "call:" + callee.split("::")[-1].split(".")[-1] + "(new)", classify_call(s, em.start() if em else enc, enc)))
+                else:
+                    rows.append((site, "new", "unknown-use"))
+            if not handles:
+                continue
+            # derived handles: builders and wrappers bound from an expression that mentions a handle
+            changed = True
+            while changed:
+                changed = False
+                for lm in re.finditer(r"\blet\s+(?:mut\s+)?(\w+)\s*(?::[^=;]+)?=\s*([^;]*);", body_own):
+                    nm, rhs = lm.group(1), lm.group(2)
+                    if nm in handles:
+                        continue
+                    for h, kind in list(handles.items()):
+                        if re.search(r"(?<![\w.])%s\b" % re.escape(h), rhs):
+                            # a builder (`f.debug_map()`) or a wrapper struct literal (`Track { f, .. }`)
+                            if re.match(r"\s*%s\s*\.\s*debug_\w+\s*\(" % re.escape(h), rhs):
+                                handles[nm] = "builder"
+                                changed = True
+                            elif re.match(r"\s*\w+\s*\{[^}]*(?<![\w.])%s\b" % re.escape(h), rhs):
+                                handles[nm] = "wrapper"
+                                changed = True
+            for h, kind in handles.items():
+                for um in re.finditer(r"(?<![\w.])%s\b" % re.escape(h), body_own):
+                    pos = b0 + um.start()
+                    after = s[b0 + um.end():]
+                    before = s[:pos]
+                    # binding occurrences
+                    if re.search(r"\blet\s+(mut\s+)?$", before[-12:]):
+                        continue
+                    key = (short, name)
+                    # (a) receiver of a method call
+                    mm = re.match(r"\s*\.\s*(\w+)\s*(::<[^>]*>)?\s*\(", after)
+                    if mm:
+                        meth = mm.group(1)
+                        if kind == "out":
+                            returns = outm.get(meth)
+                        elif kind in ("fmt", "builder", "dynw", "wrapper"):
+                            returns = True if meth in FMT_RESULT else (False if meth in FMT_NORESULT else None)
+                        if meth in ("write_str", "write_char", "write_fmt"):
+                            continue   # a write site (C19_WRITE_SITES)
+                        counter[key] = counter.get(key, 0) + 1
+                        site = "%s:%s#%d" % (short, name, counter[key])
+                        if returns is None:
+                            rows.append((site, "%s.%s" % (kind, meth), "unknown-method"))
+                        elif not returns:
+                            # a builder chain that ends in `.finish()` returns a result
+                            open_paren = pos + (um.end() - um.start()) + mm.end() - 1
+                            end = match_paren(s, open_paren)
+                            chain_end, last = end, meth
+                            while True:
+                                cm = re.match(r"\s*\.\s*(\w+)\s*\(", s[chain_end:])
+                                if not cm:
+                                    break
+                                last = cm.group(1)
+                                k = s.index("(", chain_end + cm.start())
+                                last_open = k
+                                chain_end = match_paren(s, k)
+                            if last in FMT_RESULT and last != meth:
+                                rows.append((site, "%s.%s..%s" % (kind, meth, last), classify(s, pos, last_open)))
+                            else:
+                                rows.append((site, "%s.%s" % (kind, meth), "noresult"))
+                        else:
+                            open_paren = s.index("(", pos + (um.end() - um.start()) + mm.start())
+                            rows.append((site, "%s.%s" % (kind, meth), classify(s, pos, open_paren)))
+                        continue
+                    # (a') a field of a wrapper struct is read (`track.failed`)
+                    fm = re.match(r"\s*\.\s*(\w+)\b(?!\s*\()", after)
+                    if fm and kind == "wrapper":
+                        counter[key] = counter.get(key, 0) + 1
+                        rows.append(("%s:%s#%d" % (short, name, counter[key]), "field:" + fm.group(1), "noresult"))
+                        continue
+                    # (b) first argument of write!/writeln!: a write site
+                    enc = enclosing_open(s, pos)
+                    if enc >= 0 and s[enc] == "(" and re.search(r"\b(write|writeln)!\s*$", s[:enc]):
+                        continue
+                    # (c) argument of a call
+                    if enc >= 0 and s[enc] == "(":
+                        cm = re.search(r"((?:[\w:]+(?:::<[^>]*>)?|\)|\w+\s*\.\s*\w+)|\([^()]*\))\s*$", s[:enc])
+                        callee_txt = s[max(0, enc - 60):enc]
+                        cm2 = re.search(r"([\w:.]+)\s*$", callee_txt)
+                        callee = cm2.group(1) if cm2 else ("(expr)" if s[:enc].rstrip().endswith(")") else "?")
+                        if re.search(r"verif_hooks::", callee):
+                            continue
+                        if callee.split("::")[-1].split(".")[-1] in ("Some", "Ok", "Err", "Box::new"):
+                            callee = "?"
+                        # start of the call expression: the receiver chain / path before the paren
+                        em = re.search(r"((?:[\w:]+|\([^()]*\))(?:\s*\.\s*\w+(?:\(\))?)*)\s*$", s[:enc])
+                        start = em.start() if em else enc
+                        counter[key] = counter.get(key, 0) + 1
+                        site = "%s:%s#%d" % (short, name, counter[key])
+                        rows.append((site, "call:" + callee.split("::")[-1], classify_call(s, start, enc)))
+                        continue
+                    # (d) moved into a wrapper struct literal / reborrowed
+                    if re.match(r"\s*[,}]", after) and enc >= 0 and s[enc] == "{" and re.search(r"\b[A-Z]\w*\s*$", s[:enc]):
+                        continue   # `Track { f, .. }`: the wrapper is a derived handle
+                    counter[key] = counter.get(key, 0) + 1
+                    rows.append(("%s:%s#%d" % (short, name, counter[key]), "other", "unknown-use"))
+    return rows
+
+
+def classify_call(s, start, open_paren):
+    """like `classify`, and: the value of a closure handed to a function whose own result is
+    classified in turn; a bound variable that is consumed by `ok!(v…)`/`ctx_ok!(v…)`/`v?`/`match v`"""
+    c = classify(s, start, open_paren)
+    if c in ("propagate", "panic"):
+        return c
+    end = match_paren(s, open_paren)
+    rest = s[end:].lstrip()
+    # value of a closure `|state| call(..)` or the tail of a closure block handed to an outer call
+    stmt = s[:start].rstrip()
+    if stmt.endswith("|") or re.search(r"\|\s*[\w, ]*\|\s*\{[^{}]*$", s[max(0, start - 400):start]):
+        # find the call the closure is an argument of
+        pos = start
+        while True:
+            enc = enclosing_open(s, pos)
+            if enc < 0:
+                return "unknown-closure"
+            if s[enc] == "(" and re.search(r"[\w>]\s*$", s[:enc]) and not re.search(r"\b(if|while|match|for)\s*$", s[:enc]):
+                em = re.search(r"((?:[\w:]+)(?:\s*\.\s*\w+(?:\(\))?)*)\s*$", s[:enc])
+                st2 = em.start() if em else enc
+                # the closure must end with our call: tail position
+                return classify_call(s, st2, enc)
+            pos = enc
+    # bound variable consumed later
+    stmt_start = max(s.rfind(";", 0, start), s.rfind("{", 0, start), s.rfind("}", 0, start)) + 1
+    prefix = s[stmt_start:start]
+    m = re.search(r"\blet\s+(?:mut\s+)?(\w+)\s*(?::[^=]+)?=\s*$", prefix)
+    if m and rest.startswith(";"):
+        name = m.group(1)
+        after = s[end:]
+        close = match_paren("{" + after, 0) - 2
+        block = after[:close]
+        # every other mention of the variable must be inside the argument list of a verification hook
+        mentions = 0
+        for um in re.finditer(r"(?<![\w.])%s\b" % re.escape(name), block):
+            enc = enclosing_open(block, um.start())
+            hooked = False
+            while enc >= 0:
+                if block[enc] == "(" and re.search(r"verif_hooks::[\w:]+\s*$", block[:enc]):
+                    hooked = True
+                    break
+                enc = enclosing_open(block, enc)
+            if not hooked:
+                mentions += 1
+        if mentions > 1:
+            return "inspected"
+        if re.search(r"\b(ok|ctx_ok)!\s*\(\s*%s\b" % re.escape(name), block) or re.search(r"\bmatch\s+%s\s*\{" % re.escape(name), block) \
+                or re.search(r"\b%s\s*\?" % re.escape(name), block) or re.search(r"(^|[;}\n])\s*%s(\s*\.\s*map(_err)?\s*\([^;]*\))?\s*$" % re.escape(name), block):
+            return "propagate"
+        return "swallow"
+    # scrutinee of a match whose arms are classified by the boundary table
+    if re.search(r"\bmatch\s*$", prefix):
+        return "propagate-match"
+    return c
+
+
+
+
+def _flow_files(repo):
+    return sorted(os.path.relpath(p, repo) for p in glob.glob(os.path.join(repo, "minijinja/src/**/*.rs"), recursive=True)
+                  if "verif_hooks" not in p and "/compiler/" not in p)
+
+
+@item("C19_RESULT_FLOW")
+def _result_flow(repo):
+    rows = scan_flow(repo, _flow_files(repo))
+    sites, _ = _boundary_sites(repo)
+    complete = {fn for (_, fn, chk, take, ok_arm, err_arm) in sites if chk == 1 and take == 1 and ok_arm == 1 and err_arm == 1}
+    out = []
+    for (site, callee, cls) in rows:
+        if cls == "propagate-match":
+            fn = site.split(":")[1].split("#")[0]
+            cls = "propagate" if fn in complete else "match-unchecked"
+        out.append((site, callee, cls))
+    if len(out) < 60:
+        raise KeyError("result flow: only %d uses found" % len(out))
+    lean = ("def c19ResultFlow : List (String × String × String) := [\n  "
+            + ",\n  ".join("(%s, %s, %s)" % (lean_str(a), lean_str(b), lean_str(c)) for a, b, c in out) + "]")
+    return out, lean
+
+
+@item("C19_OUTPUT_CREATIONS")
+def _output_creations(repo):
+    """every `Output::new(..)` / `Output::null()` of the crate: (file, fn, base writer, okChecked,
+    errTaken).  Base writer: `String` (a local `String::new()`/`with_capacity`, a `&mut String`
+    parameter), `Null`, `WriteWrapper` (a local `WriteWrapper { .. }`, or a parameter whose type
+    mentions `WriteWrapper`), else the expression itself.  For a `WriteWrapper` base: is the result
+    of the evaluation passed through `check` on the `Ok` arm and through `take_err` on the `Err` arm
+    - in this function if it builds the adapter, otherwise in EVERY caller of this function (one
+    level).  For other bases the two columns are 1 (nothing to check: a `String` cannot fail)."""
+    sites, _ = _boundary_sites(repo)
+    arms = {fn: (1 if (chk == 1 and ok_arm == 1) else 0, 1 if (take == 1 and err_arm == 1) else 0) for (_, fn, chk, take, ok_arm, err_arm) in sites}
+    srcs = {}
+    for path in sorted(glob.glob(os.path.join(repo, "minijinja/src/**/*.rs"), recursive=True)):
+        if "verif_hooks" in path:
+            continue
+        raw = open(path, encoding="utf-8").read()
+        cut = raw.find("#[cfg(test)]")
+        if cut >= 0:
+            raw = raw[:cut]
+        srcs[os.path.relpath(path, repo).replace("minijinja/src/", "")] = blank_comments_and_strings(raw)
+    rows = []
+    for rel, s in srcs.items():
+        items = fn_items(s)
+        for m in re.finditer(r"\bOutput\s*::\s*(new|null)\s*\(", s):
+            if re.search(r"\bfn\s+$", s[max(0, m.start() - 8):m.start()]):
+                continue
+            encl = [(n, p0, p1, b0, b1) for (n, st, p0, p1, b0, b1) in items if b0 < m.start() < b1]
+            if not encl:
+                continue
+            fn, p0, p1, b0, b1 = encl[-1]
+            # (a closure inside `CapturedCell::try_new(..)` belongs to the function around it)
+            params, body = s[p0:p1], s[b0:b1]
+            if m.group(1) == "null":
+                rows.append((rel, fn, "Null", 1, 1))
+                continue
+            a0 = s.index("(", m.end() - 1)
+            arg = "".join(s[a0 + 1:match_paren(s, a0) - 1].split())
+            var = re.sub(r"^&mut\*?", "", arg)
+            var = re.sub(r"\.borrow_mut\(\)$", "", var)
+            base = arg
+            if re.search(r"\blet\s+(mut\s+)?%s\s*=[^;]*?\bString\s*::\s*(new|with_capacity)\s*\(" % re.escape(var), body) \
+                    or re.search(r"\b%s\s*:\s*&\s*(\'\w+\s+)?mut\s+String\b" % re.escape(var), params):
+                base = "String"
+            elif re.search(r"\blet\s+(mut\s+)?%s\s*=\s*(crate::output::)?WriteWrapper\s*\{" % re.escape(var), body) \
+                    or re.search(r"\b%s\s*:[^,)]*\bWriteWrapper\b" % re.escape(var), params):
+                base = "WriteWrapper"
+            if base != "WriteWrapper":
+                rows.append((rel, fn, base, 1, 1))
+                continue
+            if fn in arms:
+                rows.append((rel, fn, base, arms[fn][0], arms[fn][1]))
+                continue
+            callers = set()
+            for rel2, s2 in srcs.items():
+                for cm in re.finditer(r"(?<![\w])%s\s*\(" % re.escape(fn), s2):
+                    if re.search(r"\bfn\s+$", s2[max(0, cm.start() - 8):cm.start()]):
+                        continue
+                    inner = [(n) for (n, st, q0, q1, c0, c1) in fn_items(s2) if c0 < cm.start() < c1]
+                    callers.add(inner[-1] if inner else "?")
+            ok = 1 if callers and all(arms.get(c, (0, 0))[0] == 1 for c in callers) else 0
+            tk = 1 if callers and all(arms.get(c, (0, 0))[1] == 1 for c in callers) else 0
+            rows.append((rel, fn + "<-" + "+".join(sorted(callers)), base, ok, tk))
+    if len(rows) < 6:
+        raise KeyError("output creations: only %d found" % len(rows))
+    lean = ("def c19OutputCreations : List (String × String × String × Nat × Nat) := ["
+            + ", ".join("(%s, %s, %s, %d, %d)" % (lean_str(a), lean_str(b), lean_str(c), d, e) for a, b, c, d, e in rows) + "]")
+    return rows, lean
+
+
+@item("C19_VALUE_REPRS")
+def _value_reprs(repo):
+    """the variants of `enum ValueRepr` (value/mod.rs): every representation a printed value can have.
+    The check demands that the fault-injection streams emitted a value of each of them (a value kind
+    the generators never print is a blind spot of the correspondence)."""
+    raw = read(repo, "minijinja/src/value/mod.rs")
+    s = blank_comments_and_strings(raw)
+    m = re.search(r"\benum\s+ValueRepr\s*\{", s)
+    if not m:
+        raise KeyError("enum ValueRepr")
+    b0 = s.index("{", m.end() - 1)
+    body = s[b0 + 1:match_paren(s, b0) - 1]
+    variants, depth, cur = [], 0, ""
+    for ch in body:
+        if ch in "(<[{":
+            depth += 1
+        elif ch in ")>]}":
+            depth -= 1
+        elif ch == "," and depth == 0:
+            variants.append(cur)
+            cur = ""
+            continue
+        if depth == 0 or ch in "(<[{":
+            cur += ch
+    variants.append(cur)
+    names = [re.sub(r"#\[[^\]]*\]", "", v).strip().split("(")[0].split("{")[0].strip() for v in variants]
+    names = [n for n in names if re.match(r"^[A-Z]\w*$", n)]
+    if len(names) < 8:
+        raise KeyError("enum ValueRepr: variants %r" % names)
+    lean = "def c19ValueReprs : List String := [" + ", ".join(lean_str(n) for n in names) + "]"
+    return names, lean
+
+
+@item("C19_OUT_INSTRUCTIONS")
+def _out_instructions(repo):
+    """the instructions whose arm in `eval_impl` (vm/mod.rs) touches the output (`out`), verification
+    hooks aside: the constructs through which a render reaches the writer or moves the capture
+    stack.  The check demands that the programs of the fault-injection streams contain every one
+    of them."""
+    raw = read(repo, "minijinja/src/vm/mod.rs")
+    s = blank_comments_and_strings(raw)
+    _, _, body = fn_body_blank(s, "eval_impl")
+    m = re.search(r"\bmatch\s+instr\s*\{", body)
+    if not m:
+        raise KeyError("match instr in eval_impl")
+    b0 = body.index("{", m.end() - 1)
+    block = body[b0 + 1:match_paren(body, b0) - 1]
+    # statements of the verification hooks do not count
+    block = re.sub(r"crate::verif_hooks::[\w:]+\s*\((?:[^()]|\((?:[^()]|\([^()]*\))*\))*\)\s*;", lambda mm: " " * len(mm.group(0)), block)
+    block = re.sub(r"#\[cfg\(feature\s*=\s*\"\s*verif_hooks\s*\"\)\]\s*let\s[^;]*;", lambda mm: " " * len(mm.group(0)), block)
+    arms, depth = [], 0
+    starts = []
+    for am in re.finditer(r"Instruction::(\w+)", block):
+        # arm heads are at depth 0 of the match block
+        d = 0
+        for ch in block[:am.start()]:
+            if ch in "({[":
+                d += 1
+            elif ch in ")}]":
+                d -= 1
+        if d == 0:
+            starts.append((am.start(), am.group(1)))
+    rows = []
+    for i, (st, name) in enumerate(starts):
+        end = starts[i + 1][0] if i + 1 < len(starts) else len(block)
+        arm = block[st:end]
+        k = arm.find("=>")
+        if k < 0:
+            continue
+        if re.search(r"(?<![\w.])out\b", arm[k:]) or re.search(r"\brecurse_loop!\s*\(", arm[k:]):
+            if name not in rows:
+                rows.append(name)
+    if len(rows) < 6:
+        raise KeyError("instructions that use `out`: %r" % rows)
+    lean = "def c19OutInstructions : List String := [" + ", ".join(lean_str(n) for n in rows) + "]"
     return rows, lean
